@@ -154,11 +154,15 @@ namespace rkcommon {
     template <typename T>
     inline IntrusivePtr<T> &IntrusivePtr<T>::operator=(T *input)
     {
+      // as in the assignments from handles: release the old object last, when
+      // this handle already designates the new one (the old object's
+      // destructor may look at this handle)
       if (input)
         input->refInc();
-      if (ptr)
-        ptr->refDec();
+      T *const old = ptr;
       ptr = input;
+      if (old)
+        old->refDec();
       return *this;
     }
 
